@@ -311,18 +311,43 @@ func runC03(p *core.Prog, r *core.Result) {
 	}
 	// ---- R3.1
 	var rename, createTemp, closeC, encode ssa.CallInstruction
-	for _, c := range core.Calls(save) {
-		switch {
-		case core.IsCallTo(c, "os", "Rename"):
-			rename = c
-		case core.IsCallTo(c, "os", "CreateTemp"):
-			createTemp = c
-		case core.IsMethod(c, "os", "File", "Close"):
-			if _, isDefer := c.(*ssa.Defer); !isDefer {
-				closeC = c
+	steps := func(fn *ssa.Function) {
+		for _, c := range core.Calls(fn) {
+			switch {
+			case core.IsCallTo(c, "os", "Rename"):
+				if fn == save {
+					rename = c
+				}
+			case core.IsCallTo(c, "os", "CreateTemp"):
+				createTemp = c
+			case core.IsMethod(c, "os", "File", "Close"):
+				if _, isDefer := c.(*ssa.Defer); !isDefer {
+					closeC = c
+				}
+			case core.IsMethod(c, "encoding/json", "Encoder", "Encode"):
+				encode = c
 			}
-		case core.IsMethod(c, "encoding/json", "Encoder", "Encode"):
-			encode = c
+		}
+	}
+	steps(save)
+	// the temporary file may be written by a helper of the package that returns its name
+	var tmpSite *ssa.Call
+	var tmpFn *ssa.Function
+	if createTemp == nil {
+		for _, c := range core.Calls(save) {
+			h := core.Callee(c)
+			call, isCall := c.(*ssa.Call)
+			if !isCall || h == nil || h.Pkg != save.Pkg || h.Blocks == nil || h == tip {
+				continue
+			}
+			for _, hc := range core.Calls(h) {
+				if core.IsCallTo(hc, "os", "CreateTemp") {
+					tmpSite, tmpFn = call, h
+				}
+			}
+		}
+		if tmpFn != nil {
+			steps(tmpFn)
 		}
 	}
 	construct := "dawn.(*Project).saveTargetInfo#atomic-replace"
@@ -351,28 +376,82 @@ func runC03(p *core.Prog, r *core.Result) {
 		}
 		// source = Name() of the CreateTemp result
 		src := rename.Common().Args[0]
-		srcOK := false
-		if c, ok := src.(*ssa.Call); ok && core.IsMethod(c, "os", "File", "Name") {
-			if e, ok := c.Call.Args[0].(*ssa.Extract); ok && e.Tuple == createTemp.(ssa.Value) {
-				srcOK = true
+		isTempName := func(v ssa.Value) bool {
+			if c, ok := v.(*ssa.Call); ok && core.IsMethod(c, "os", "File", "Name") {
+				if e, ok := c.Call.Args[0].(*ssa.Extract); ok && e.Tuple == createTemp.(ssa.Value) {
+					return true
+				}
 			}
+			return false
 		}
 		dirOK := core.LoadOfField(createTemp.Common().Args[0], pkgRoot, "Project", "temp")
-		// ordering on nil edges
 		encV := encode.(ssa.Value)
 		clsV := closeC.(ssa.Value)
-		n1, k1 := p.FactsAt(ri).ErrNonNil(encV)
-		n2, k2 := p.FactsAt(ri).ErrNonNil(clsV)
-		ordOK := core.Dominates(encode.(ssa.Instruction), closeC.(ssa.Instruction)) && core.Dominates(closeC.(ssa.Instruction), ri) && k1 && !n1 && k2 && !n2
 		// the encoder writes to the temp file
 		encToTemp := core.DependsOn(encode.Common().Args[0], core.SliceOpts{ThroughCall: func(*ssa.Call) bool { return true }}, func(v ssa.Value) bool { return v == createTemp.(ssa.Value) })
-		// the encoded value is the info parameter
-		infoOK := core.DependsOn(encode.Common().Args[1], core.SliceOpts{Stores: true}, func(v ssa.Value) bool { return v == ssa.Value(save.Params[2]) })
+		var srcOK, ordOK, infoOK bool
+		if tmpFn == nil {
+			srcOK = isTempName(src)
+			// ordering on nil edges
+			n1, k1 := p.FactsAt(ri).ErrNonNil(encV)
+			n2, k2 := p.FactsAt(ri).ErrNonNil(clsV)
+			ordOK = core.Dominates(encode.(ssa.Instruction), closeC.(ssa.Instruction)) && core.Dominates(closeC.(ssa.Instruction), ri) && k1 && !n1 && k2 && !n2
+			// the encoded value is the info parameter
+			infoOK = core.DependsOn(encode.Common().Args[1], core.SliceOpts{Stores: true}, func(v ssa.Value) bool { return v == ssa.Value(save.Params[2]) })
+		} else {
+			// the helper hands out the name only on returns that follow encode -> close on nil edges; every other
+			// return carries a non-nil error; the rename is on the nil edge of the helper's error
+			ex, isEx := src.(*ssa.Extract)
+			nres := tmpFn.Signature.Results().Len()
+			srcOK = isEx && ex.Tuple == ssa.Value(tmpSite) && nres >= 2
+			ordOK = srcOK
+			if srcOK {
+				nGood := 0
+				for _, ret := range core.ReturnsOf(tmpFn) {
+					vals := core.RetVals(ret)
+					errV := vals[nres-1]
+					if !core.IsNilConst(errV) {
+						if nn, known := p.FactsAt(ret).ErrNonNil(errV); known && nn {
+							continue // failure return
+						}
+					}
+					nGood++
+					if !isTempName(vals[ex.Index]) {
+						srcOK = false
+					}
+					n1, k1 := p.FactsAt(ret).ErrNonNil(encV)
+					n2, k2 := p.FactsAt(ret).ErrNonNil(clsV)
+					if !(core.Dominates(encode.(ssa.Instruction), closeC.(ssa.Instruction)) && core.Dominates(closeC.(ssa.Instruction), ret) && k1 && !n1 && k2 && !n2) {
+						ordOK = false
+					}
+				}
+				if nGood == 0 {
+					ordOK = false
+				}
+				errRes := extractOf(tmpSite, nres-1)
+				if errRes == nil {
+					ordOK = false
+				} else if nn, known := p.FactsAt(ri).ErrNonNil(errRes); !known || nn {
+					ordOK = false
+				}
+			}
+			// the encoded value is the helper's parameter that receives the info parameter
+			for i, prm := range tmpFn.Params {
+				if i < len(tmpSite.Call.Args) && core.DependsOn(encode.Common().Args[1], core.SliceOpts{Stores: true}, func(v ssa.Value) bool { return v == ssa.Value(prm) }) &&
+					core.DependsOn(tmpSite.Call.Args[i], core.SliceOpts{Stores: true}, func(v ssa.Value) bool { return v == ssa.Value(save.Params[2]) }) {
+					infoOK = true
+				}
+			}
+		}
 		r.Check(dstOK, "R3.1", construct+":destination", p.InstrPos(ri), "the rename target is targetInfoPath(label)", "the rename target is not targetInfoPath(label)")
 		r.Check(srcOK && dirOK, "R3.1", construct+":source", p.InstrPos(ri), "the rename source is the temporary file created in Project.temp", "the rename source is not a temporary file created in Project.temp (a different directory may be another file system: rename is then not atomic)")
 		r.Check(ordOK && encToTemp && infoOK, "R3.1", construct+":order", p.InstrPos(ri), "encode(info) -> close -> rename, each on the nil-error edge of the previous step", "the record can be renamed into place before it was completely written and closed without error")
 		// no other write to the destination path
-		for _, c := range core.Calls(save) {
+		writers := core.Calls(save)
+		if tmpFn != nil {
+			writers = append(writers, core.Calls(tmpFn)...)
+		}
+		for _, c := range writers {
 			cal := core.Callee(c)
 			if cal == nil || c == rename {
 				continue
@@ -395,6 +474,13 @@ func runC03(p *core.Prog, r *core.Result) {
 			if v == ssa.Value(Load.Params[0]) {
 				return []string{"<root>"}
 			}
+			if prm, ok := v.(*ssa.Parameter); ok {
+				// the fields may be set by a constructor helper: its parameter is a symbol common to both paths
+				return []string{"<" + prm.Name() + ">"}
+			}
+			if core.LoadOfField(v, pkgRoot, "Project", "work") {
+				return []string{"<work>"}
+			}
 			if c, ok := v.(*ssa.Call); ok && core.IsCallTo(c, "path/filepath", "Join") && depth < 4 {
 				var parts []string
 				if sl, ok := c.Call.Args[0].(*ssa.Slice); ok {
@@ -408,38 +494,97 @@ func runC03(p *core.Prog, r *core.Result) {
 			}
 			return []string{"?"}
 		}
-		core.Instrs(Load, func(in ssa.Instruction) {
-			st, ok := in.(*ssa.Store)
-			if !ok {
-				return
+		// the two fields are set in Load or in a constructor helper of the package (both in the same function, once)
+		var workFn, tempFn *ssa.Function
+		nStores := 0
+		for _, f := range p.ModuleFuncs() {
+			if f.Pkg == nil || f.Pkg.Pkg.Path() != pkgRoot {
+				continue
 			}
-			for _, fld := range []string{"work", "temp"} {
-				if !core.IsField(st.Addr, pkgRoot, "Project", fld) {
-					continue
+			core.Instrs(f, func(in ssa.Instruction) {
+				st, ok := in.(*ssa.Store)
+				if !ok {
+					return
 				}
-				if fld == "work" {
-					workArgs = partsOf(st.Val, 0)
-				} else {
-					tempArgs = partsOf(st.Val, 0)
+				for _, fld := range []string{"work", "temp"} {
+					if !core.IsField(st.Addr, pkgRoot, "Project", fld) {
+						continue
+					}
+					nStores++
+					if fld == "work" {
+						workArgs, workFn = partsOf(st.Val, 0), f
+					} else {
+						tempArgs, tempFn = partsOf(st.Val, 0), f
+					}
 				}
-			}
-		})
-		ok := len(workArgs) > 0 && len(tempArgs) > len(workArgs)
+			})
+		}
+		ok := len(workArgs) > 0 && len(tempArgs) > len(workArgs) && workFn == tempFn && nStores == 2
 		for i := range workArgs {
 			if i >= len(tempArgs) || tempArgs[i] != workArgs[i] || workArgs[i] == "?" {
 				ok = false
+			}
+		}
+		if len(tempArgs) > 1 && tempArgs[0] == "<work>" && nStores == 2 {
+			ok = true
+			for _, a := range tempArgs[1:] {
+				if a == "?" || a == ".." || strings.HasPrefix(a, "../") || strings.HasPrefix(a, "/") {
+					ok = false
+				}
 			}
 		}
 		r.Check(ok, "R3.1", "dawn.Load#temp-inside-work", p.Pos(Load.Pos()), fmt.Sprintf("temp (%s) lies inside work (%s): same file system, so rename is atomic", strings.Join(tempArgs, "/"), strings.Join(workArgs, "/")), fmt.Sprintf("temp (%s) is not a sub-path of work (%s)", strings.Join(tempArgs, "/"), strings.Join(workArgs, "/")))
 	}
 
 	// ---- R3.2 who may write build state
-	allowed := map[string]map[string]bool{
-		"(*dawn.Project).saveTargetInfo": {"os.MkdirAll": true, "os.CreateTemp": true, "os.Rename": true},
-		"(*dawn.Project).saveIndex":      {"os.Create": true},
-		"(*dawn.Project).load":           {"os.MkdirAll": true},
-		"(*dawn.Project).GC$2":           {"os.RemoveAll": true},
+	// the known writers, resolved through the anchor lookup (a renamed function keeps its role)
+	allowedFns := map[*ssa.Function]map[string]bool{}
+	for _, a := range []struct {
+		name string
+		ops  []string
+	}{{"saveTargetInfo", []string{"os.MkdirAll", "os.CreateTemp", "os.Rename"}}, {"saveIndex", []string{"os.Create"}}, {"load", []string{"os.MkdirAll"}}} {
+		if f := p.Func("", "Project", a.name); f != nil {
+			allowedFns[f] = map[string]bool{}
+			for _, o := range a.ops {
+				allowedFns[f][o] = true
+			}
+		}
 	}
+	if gcFn := p.Func("", "Project", "GC"); gcFn != nil {
+		for _, a := range gcFn.AnonFuncs {
+			allowedFns[a] = map[string]bool{"os.RemoveAll": true}
+		}
+	}
+	// a helper that only known writers call (statically, never as a value) inherits what they may do
+	for changed, rounds := true, 0; changed && rounds < 3; rounds++ {
+		changed = false
+		for _, f := range p.ModuleFuncs() {
+			if _, known := allowedFns[f]; known || f.Pkg == nil || f.Pkg.Pkg.Path() != pkgRoot || f.Parent() != nil {
+				continue
+			}
+			callers := p.StaticCallers(f)
+			if len(callers) == 0 || len(p.FuncValueUses(f)) > 0 {
+				continue
+			}
+			inherit := map[string]bool{}
+			all := true
+			for _, c := range callers {
+				ops, ok := allowedFns[c.Parent()]
+				if !ok {
+					all = false
+					break
+				}
+				for o := range ops {
+					inherit[o] = true
+				}
+			}
+			if all {
+				allowedFns[f] = inherit
+				changed = true
+			}
+		}
+	}
+	allowedOp := func(f *ssa.Function, k string) bool { return allowedFns[f][k] }
 	nW := 0
 	for _, f := range p.ModuleFuncs() {
 		root := f
@@ -480,7 +625,7 @@ func runC03(p *core.Prog, r *core.Result) {
 			}
 			nW++
 			construct := fmt.Sprintf("%s#state-writer:%s", fname(f), k)
-			if allowed[fname(f)][k] {
+			if allowedOp(f, k) {
 				r.OK("R3.2", construct, p.InstrPos(c.(ssa.Instruction)), "known writer of build state (path from %s)", why)
 			} else {
 				r.Bad("R3.2", construct, p.InstrPos(c.(ssa.Instruction)), "%s writes into the build-state directory (path from %s) outside the known writers: persisted state can now change at a point the recovery argument does not cover", k, why)
